@@ -25,9 +25,10 @@ open MeshHeap MeshClasses
     or the hand classification gives it a class whose sharing summary its regenerated summary fits -/
 def rowOK (s : FnSummary) : Bool :=
   if notOneOperation.contains s.name then (handClass s.name).isNone
-  else match handClass s.name with
-    | some c => s.fits c
-    | none => false
+  else match handClass s.name, handTwoClasses s.name with
+    | some c, none => s.fits c
+    | none, some (c, d) => s.fitsEither c d
+    | _, _ => false
 
 /-- THE CLASSIFICATION IS DERIVED FROM THE SOURCE: every exported Mesh-returning function of modeling/mesh.go
     (complete regenerated table) has the sharing behaviour of the model class it is assigned to. -/
@@ -35,7 +36,7 @@ theorem classification_from_source : ∀ s ∈ Gen.C01Classes.table, rowOK s = t
 
 /-- the table is the complete list the extractor saw, and it is not empty -/
 theorem classification_covers : Gen.C01Classes.table.length = Gen.C01Classes.functionsSummarised ∧
-    40 ≤ Gen.C01Classes.table.length := by decide
+    70 ≤ Gen.C01Classes.table.length := by decide
 
 /-- no classified function has an `unknown` source anywhere -/
 theorem classification_no_unknown : ∀ s ∈ Gen.C01Classes.table, notOneOperation.contains s.name = false →
